@@ -175,6 +175,30 @@ class OnePreemption(Strategy):
         return cands[0]
 
 
+class Preemptions(Strategy):
+    """Non-preemptive, except at the listed (actor name, k-th armed point) places, where the baton goes to another
+    runnable actor (round-robin among the others).  Generalises OnePreemption to several forced switches."""
+
+    def __init__(self, places):
+        self.places = {(a, k) for a, k in places}
+        self.fired = []
+
+    def choose(self, sched, me, cands, kind):
+        if me is not None and me in cands and (me.name, me.points) in self.places:
+            others = [c for c in cands if c is not me]
+            if others:
+                self.places.discard((me.name, me.points))
+                self.fired.append((me.name, me.points, kind, sched.last_point_desc))
+                return others[len(self.fired) % len(others)]
+        if me in cands:
+            return me
+        return cands[0]
+
+    @property
+    def fired_at(self):
+        return self.fired
+
+
 class DFSStrategy(Strategy):
     """Stateless DFS over decision sequences with a preemption bound.
 
